@@ -129,8 +129,7 @@ class Recorder:
 def io_obligations(P):
     obs = []
     site = "src/bldfm/io.py::save_footprints_to_netcdf"
-    n_time = 2
-    for is3d, z0, order in [(a, b, [1, 0]) for a in (False, True) for b in (False, True)] + [(False, False, [1]), (True, True, [1]), (False, "late", [1, 0])]:
+    for is3d, z0, order, n_time in [(a, b, [1, 0], 2) for a in (False, True) for b in (False, True)] + [(False, False, [1], 2), (True, True, [1], 2), (False, "late", [1, 0], 2), (False, True, [0, 1], 1)]:
         if True:
             cfg = CM.make_obj(P, "BLDFMConfig", "config", {})
             # results keyed in another order than config.towers; and a result set for one tower only (not the first configured)
@@ -139,7 +138,10 @@ def io_obligations(P):
             fp = alg.sym("filepath")
             res = CM.run_paths(P, "bldfm.io", "save_footprints_to_netcdf", [results, cfg, fp], {}, stubs=rec.stubs())
             rets = [r for r in res if r.kind == "return"]
-            tag = "(%s, %s%s)" % ("3-D" if is3d else "2-D", "z0 forcing from the second step on" if z0 == "late" else "z0 forcing" if z0 else "ustar forcing", "" if len(order) > 1 else ", one tower")
+            tag = "(%s, %s%s%s)" % ("3-D" if is3d else "2-D", "z0 forcing from the second step on" if z0 == "late" else "z0 forcing" if z0 else "ustar forcing", "" if len(order) > 1 else ", one tower", "" if n_time > 1 else ", one step")
+            if res and not rets and all(r.kind == "raise" for r in res):
+                obs.append(req_ob("R-NC-PLACE", site, "the export of a complete result set returns %s" % tag, False, detail="every path raises: " + str([r.raise_desc for r in res])[:300]))
+                continue
             if not rets:
                 obs.append(req_ob("R-NC-PLACE", site, "export is interpretable %s" % tag, None, detail=str([(r.kind, r.raise_desc) for r in res])[:300]))
                 continue
